@@ -447,12 +447,13 @@ def handler(payload):
         def rt():
             p = CertBlockV21.parse(data)
             isk = p.isk_certificate
+            size_as_parsed = p.header.cert_block_size          # export() below rewrites it
             d = {"rkth": g(lambda: p.rkth), "reexport": g(lambda: p.export()),
                  "flags": p.root_key_record.flags, "used": p.root_key_record.used_root_cert,
                  "count": p.root_key_record.number_of_certificates,
                  "ca": int(bool(p.root_key_record.ca_flag)),
                  "root_pub": H(p.root_key_record.root_public_key),
-                 "cert_block_size": p.header.cert_block_size, "version": p.header.format_version,
+                 "cert_block_size": size_as_parsed, "version": p.header.format_version,
                  "has_isk": int(isk is not None)}
             if isk is not None:
                 d.update({"isk_constraints": isk.constraints, "isk_flags": isk.flags,
